@@ -165,9 +165,7 @@ where
     let op = if ops.0 == ops.1 {
         ops.0
     } else {
-        let o = nd::u8();
-        nd::assume(o >= ops.0 && o <= ops.1);
-        o
+        ops.0 + nd::below(ops.1 - ops.0 + 1)
     };
     let before = m;
     {
